@@ -1,3 +1,212 @@
 import Driver.Common
-/- stub: model driver for C16 not built yet -/
-def main : IO Unit := Driver.lineLoop (fun _ => "unimplemented")
+import ThriftVerif.Lib.Trim
+
+/-! Model driver for C16: one line = one (configuration, program); answer = canonical rendering of
+the trimmed program reachable from the root (or `crash`). -/
+namespace Driver.C16
+open Trim
+
+abbrev P := StateT (List String) Option
+
+def tok : P String := fun s => match s with
+  | [] => none
+  | t :: r => some (t, r)
+
+def nat : P Nat := do
+  let t ← tok
+  match t.toNat? with
+  | some n => pure n
+  | none => failure
+
+def int : P Int := do
+  let t ← tok
+  match t.toInt? with
+  | some n => pure n
+  | none => failure
+
+def bytes : P Bytes := do
+  let t ← tok
+  match VL.hexDecode t with
+  | some b => pure b
+  | none => failure
+
+def bool : P Bool := do
+  let t ← tok
+  pure (t == "1")
+
+def many {α} (p : P α) : Nat → P (List α)
+  | 0 => pure []
+  | n+1 => do
+    let a ← p
+    let r ← many p n
+    pure (a :: r)
+
+def counted {α} (p : P α) : P (List α) := do
+  let n ← nat
+  many p n
+
+def ref : P (Option (Bytes × Nat)) := do
+  let b ← bool
+  if b then
+    let n ← bytes
+    let i ← nat
+    pure (some (n, i))
+  else pure none
+
+def hdr : P TyHdr := do
+  let name ← bytes
+  let cat ← nat
+  let isTd ← bool
+  let r ← ref
+  pure ⟨name, cat, isTd, r⟩
+
+partial def ty : P Ty := do
+  let t ← tok
+  let h ← hdr
+  match t with
+  | "N" => pure (.named h)
+  | "U" => do
+    let v ← ty
+    pure (.unary h v)
+  | "B" => do
+    let k ← ty
+    let v ← ty
+    pure (.binary h k v)
+  | _ => failure
+
+def field : P Field := do
+  let n ← bytes
+  let i ← int
+  let t ← ty
+  pure ⟨n, i, t⟩
+
+def structLike : P StructLike := do
+  let n ← bytes
+  let pc ← bool
+  let fs ← counted field
+  pure ⟨n, fs, pc⟩
+
+def function : P Function := do
+  let n ← bytes
+  let a ← counted field
+  let t ← counted field
+  let hasRet ← bool
+  if hasRet then
+    let r ← ty
+    pure ⟨n, a, t, some r⟩
+  else pure ⟨n, a, t, none⟩
+
+def service : P Service := do
+  let n ← bytes
+  let e ← bytes
+  let r ← ref
+  let fns ← counted function
+  pure ⟨n, e, r, fns⟩
+
+def pInclude : P Include := do
+  let path ← bytes
+  let t ← nat
+  pure ⟨path, t⟩
+
+def typedef : P Typedef := do
+  let a ← bytes
+  let t ← ty
+  pure ⟨a, t⟩
+
+def const : P Const := do
+  let a ← bytes
+  let t ← ty
+  pure ⟨a, t⟩
+
+def file : P File := do
+  let name ← bytes
+  let incs ← counted pInclude
+  let tds ← counted typedef
+  let cs ← counted const
+  let es ← counted bytes
+  let ss ← counted structLike
+  let us ← counted structLike
+  let xs ← counted structLike
+  let svs ← counted service
+  pure ⟨name, incs, tds, cs, es, ss, us, xs, svs⟩
+
+def rxRow : P (Bytes × Bytes × Bool) := do
+  let pat ← bytes
+  let s ← bytes
+  let b ← bool
+  pure (pat, s, b)
+
+def cfg : P Cfg := do
+  let force ← bool
+  let noComment ← bool
+  let pres ← counted bytes
+  let ms ← counted bytes
+  let rows ← counted rxRow
+  pure ⟨ms, force, noComment, pres, fun pat s => rows.any (fun r => r.1 == pat && r.2.1 == s && r.2.2)⟩
+
+/-! rendering -/
+
+def a (b : Bytes) : String := VL.ascii b
+
+def rRef (withIdx : Bool) : Option (Bytes × Nat) → String
+  | none => ""
+  | some (n, i) => "@" ++ a n ++ (if withIdx then ":" ++ toString i else "")
+
+def rHdr (w : Bool) (h : TyHdr) : String :=
+  a h.name ++ "#" ++ toString h.cat ++ (if h.isTd then "t" else "") ++ rRef w h.ref
+
+def rTy (w : Bool) : Ty → String
+  | .named h => rHdr w h
+  | .unary h v => rHdr w h ++ "<" ++ rTy w v ++ ">"
+  | .binary h k v => rHdr w h ++ "<" ++ rTy w k ++ "," ++ rTy w v ++ ">"
+
+def rField (w : Bool) (fd : Field) : String := a fd.name ++ ":" ++ toString fd.id ++ ":" ++ rTy w fd.ty
+
+def rList (l : List String) : String := "[" ++ ",".intercalate l ++ "]"
+
+def rSL (w : Bool) (s : StructLike) : String := a s.name ++ "{" ++ ";".intercalate (s.fields.map (rField w)) ++ "}"
+
+def rFn (w : Bool) (fn : Function) : String :=
+  a fn.name ++ "(" ++ ";".intercalate (fn.args.map (rField w)) ++ ")(" ++ ";".intercalate (fn.throws.map (rField w)) ++ ")" ++
+    (match fn.ret with | some t => rTy w t | none => "void")
+
+def rSvc (w : Bool) (s : Service) : String :=
+  a s.name ++ "^" ++ a s.ext ++ rRef w s.ref ++ "{" ++ " ".intercalate (s.fns.map (rFn w)) ++ "}"
+
+def rFile (w : Bool) (q : Program) (file : File) : String :=
+  "F " ++ a file.name ++
+  " I" ++ rList (file.includes.map (fun i => a i.path ++ "=" ++ a (q.file i.target).name)) ++
+  " T" ++ rList (file.typedefs.map (fun t => a t.alias ++ "=" ++ rTy w t.ty)) ++
+  " C" ++ rList (file.consts.map (fun c => a c.name ++ "=" ++ rTy w c.ty)) ++
+  " E" ++ rList (file.enums.map a) ++
+  " S" ++ rList (file.structs.map (rSL w)) ++
+  " U" ++ rList (file.unions.map (rSL w)) ++
+  " X" ++ rList (file.exceptions.map (rSL w)) ++
+  " V" ++ rList (file.services.map (rSvc w))
+
+partial def order (q : Program) (f : Nat) (seen : List Nat) : List Nat :=
+  if seen.contains f then seen
+  else (q.file f).includes.foldl (fun s inc => order q inc.target s) (seen ++ [f])
+
+def render (w : Bool) (ms : List Bytes) (q : Program) : String :=
+  "Q" ++ rList (ms.map a) ++ " | " ++ " | ".intercalate ((order q 0 []).map (fun f => rFile w q (q.file f)))
+
+def handleLine (line : String) : String :=
+  match VL.toks line with
+  | "T" :: w :: rest =>
+    let p : P (Cfg × List File) := do
+      let c ← cfg
+      let fs ← counted file
+      pure (c, fs)
+    match p rest with
+    | some ((c, fs), []) =>
+      let prog : Program := ⟨fs⟩
+      match trim prog c with
+      | .crash => "crash"
+      | .ok q => render (w == "1") (effMethods prog c) q
+    | _ => "bad-op"
+  | _ => "bad-op"
+
+end Driver.C16
+
+def main : IO Unit := Driver.lineLoop Driver.C16.handleLine
